@@ -19,7 +19,7 @@ RULES = {
           "flushes; every other output effect of the method (image deletion, super().draw_screen) is inside that try",
     "R2": "delete before draw: _ti_clear_images() runs before super().draw_screen() when the canvas changed; its deletions go through the buffered "
           "self.write path; the identity of an on-screen image view is (canvas, row, col, trim..., cols, rows) - every geometric component unpacked from the "
-          "canvas view is part of the key; _ti_image_cviews is replaced by the set computed from the new canvas on every path that inspected it; a delete-all (`clear_images()` without widgets) lies on no cycle of the method's flow graph; the shard tails are aged after the last view of each shard as well as before every view; the widget's blend=False depends only on the image type and the konsole exception",
+          "canvas view is part of the key; _ti_image_cviews is replaced by the set computed from the new canvas on every path that inspected it; a delete-all (`clear_images()` without widgets) lies on no cycle of the method's flow graph; the shard tails are aged after the last view of each shard as well as before every view; the widget's blend=False depends only on the image type and the konsole exception; a return decided by the kind of the screen canvas (CompositeCanvas test) comes after the recorded views were inspected",
     "R3": "images are cleared on clear(), _start() (after super()._start) and _stop() (before super()._stop()); a clear - immediate or deferred - "
           "always changes the canvas disguise so that urwid's line cache redraws the images",
     "R4": "z-index allocator ownership: _ti_z_index is only stored from _ti_get_z_index(); the free list is only added to in __del__ and popped in "
